@@ -612,8 +612,26 @@ func (w *world) scanOnce(setState bool) scanObs {
 
 // slowLimit: how much real time a scan may take before its real-clock tolerances (taint stamp within 3 s, margins of
 // 3 s around lock / max_node_age / lastScaleOut comparisons) are in doubt: 1.5 s, plus 2.5 s per fleet-mode group.
+// preludeSleepsMax: the most 5 s sleeps any retry loop of that shape can take under the plan (two tries, one sleep per failed
+// describe at most): the "machine under load" limit must not cut off an implementation that retries where today's code gives up.
+func (s *scanSpec) preludeSleepsMax() int {
+	n := 0
+	for _, ok := range s.refreshPlan() {
+		if !ok {
+			n++
+		}
+	}
+	if n > 2 {
+		n = 2
+	}
+	if m := s.preludeSleeps(); m > n {
+		n = m
+	}
+	return n
+}
+
 func slowLimit(s *scanSpec) time.Duration {
-	d := 1500*time.Millisecond + time.Duration(s.preludeSleeps())*5200*time.Millisecond
+	d := 1500*time.Millisecond + time.Duration(s.preludeSleepsMax())*5200*time.Millisecond
 	for _, a := range s.Cloud {
 		if a.Template != "" {
 			d += 2500 * time.Millisecond
@@ -759,7 +777,7 @@ func canonTime(post, pre time.Time, preModel *int64, obs *scanObs) *int64 {
 
 func emitScanCase(s *scanSpec, obs *scanObs) (string, string, bool, string) {
 	in := NewInterner()
-	in.stampSlack = 6 * int64(s.preludeSleeps())
+	in.stampSlack = 6 * int64(s.preludeSleepsMax())
 	nowNs := obs.NowNs
 	nowSec := s.BaseSec
 	groups := []string{}
